@@ -12,7 +12,7 @@ RULE = (
     "Hypothesis draws profiles (closure-generated MOST/MOSTM/CONSTANT/OAAHOC, free independent u,v,Kx,Ky,Kz arrays, constants), "
     "grid nx,ny in 2..10 with dx != dy, halo in {default, 0, whole cells, fractional cells}, even mode counts below/at/above the "
     "padded size or the default, 1..3 ascending levels, a source (delta/sparse/dense/smooth, sign-changing), an on-grid tower cell, "
-    "a background value and the precision. Two public calls on the same inputs (footprint at the tower; forward dispersion with "
+    "a background value and the precision. In a third of the even-sized grids the tower lies between grid nodes (the forward run is then re-centred on it and read at the domain centre). Two public calls on the same inputs (footprint at the tower; forward dispersion with "
     "meas_pt=(0,0)) must satisfy sum(q0*flx_fp) == flx_fwd[tower] and sum(q0*conc_fp) == conc_fwd[tower] - background at every "
     "level. Non-trivial = source has >= 2 non-zero cells and a non-zero forward value at the tower; distinct = canonical JSON."
 )
@@ -41,6 +41,11 @@ def _case(draw):
     case["bg"] = draw(st.sampled_from([0.0, 1.5, -2.0, 400.0]))
     case["precision"] = draw(st.sampled_from(["double", "double", "double", "single"]))
     case["mp_array"] = draw(st.booleans())  # tower coordinates handed over as a NumPy array instead of a tuple
+    # a tower between grid nodes (even grids only: the forward run is then re-centred on the tower by the solver itself
+    # and its value at the domain centre, a node, is the field value at the tower)
+    if case["nx"] % 2 == 0 and case["ny"] % 2 == 0 and draw(st.integers(0, 2)) == 0:
+        fr = st.one_of(st.sampled_from([0.5, 0.25]), gen.fl(0.05, 0.95))
+        case["tower_frac"] = [draw(fr), draw(fr)]
     return case
 
 
@@ -55,6 +60,10 @@ def check_case(case):
     dom = gen.domain_of(case)
     mp = gen.meas_pt_of(case, case["tower"])
     im, jm = case["tower"]
+    frac = case.get("tower_frac")
+    if frac:
+        ddx, ddy = gen.spacing_of(case)
+        mp = ((im + frac[0]) * ddx, (jm + frac[1]) * ddy)
     lv = case["levels"]
     hv = case["halo"]["value"]
     single = case["precision"] == "single"
@@ -70,7 +79,12 @@ def check_case(case):
     # (sut.S also verifies that no array argument is modified in place)
     mp_arg = np.array(mp, dtype=float) if case.get("mp_array") else mp
     _, cfp, ffp = sut.S(q0, z, prof, dom, lv, meas_pt=mp_arg, footprint=True, **common)
-    _, cfw, ffw = sut.S(q0, z, prof, dom, lv, meas_pt=(0.0, 0.0), srf_bg_conc=case["bg"], footprint=False, **common)
+    # forward run: un-shifted and read at the tower's cell, or (tower between nodes) re-centred on the tower and read at
+    # the domain centre
+    _, cfw, ffw = sut.S(q0, z, prof, dom, lv, meas_pt=(mp if frac else (0.0, 0.0)), srf_bg_conc=case["bg"], footprint=False, **common)
+    if frac:
+        out.label("tower-between-nodes")
+        im, jm = case["nx"] // 2, case["ny"] // 2
     cfp, ffp, cfw, ffw = (sut.as3d(a) for a in (cfp, ffp, cfw, ffw))
     if ffp.shape != ffw.shape or ffp.shape[1:] != q0.shape:
         out.bad(f"shapes: footprint {ffp.shape}, forward {ffw.shape}, source {q0.shape}")
